@@ -18,16 +18,43 @@ package farm
 
 // Genesis import (C12, C13): every listed pool is stored with its rules, and every pool whose end height has not passed
 // is put back on the expiry queue at its end height - including a pool that ends at the very height of the import.
+// (C05, C06: a pool that is not on the queue at its end height is never ended - its farmers' rewards stop and the
+// creator's remainder is never refunded)
 //@ func InitGenesis(ctx, k, data)
-//@   property C12, C13
+//@   property C05, C06, C12, C13
 //@   requires height >= 0
 //@   modifies ruleF, pools, active, farmers, escrowF, poolSeq, prm
 //@   invariant #1 idx:    rangeindex >= 0 - 1 && rangeindex < len(data.Pools)
 //@   invariant #1 stored: forall j:Int :: 0 <= j && j <= rangeindex ==> has(pools, data.Pools[j].Id)
 //@                          && (height <= data.Pools[j].EndHeight ==> has(active, data.Pools[j].EndHeight, data.Pools[j].Id))
 //@   invariant #2 idx:    rangeindex >= 0 - 1
-//@   invariant #3 idx:    rangeindex >= 0 - 1 && rangeindex < len(data.FarmInfos)
+//@   invariant #3 idx:    rangeindex >= 0 - 1
 //@   invariant #4 idx:    rangeindex >= 0 - 1
 //@   ensures pools_imported: forall j:Int :: 0 <= j && j < len(data.Pools) ==> has(pools, data.Pools[j].Id)
 //@   ensures running_pools_queued: forall j:Int :: 0 <= j && j < len(data.Pools) && height <= data.Pools[j].EndHeight ==> has(active, data.Pools[j].EndHeight, data.Pools[j].Id)
+//@ end
+
+// Genesis export (C12): EVERY stored pool is exported - running, not yet started, ended or emptied alike (an ended pool
+// is still what the pool queries answer with) - under its id, with the rule list GetRewardRules reads for it; every
+// staking position and the pool sequence are exported as stored.
+//@ func ExportGenesis(ctx, k)
+//@   property C12
+//@   returns gs
+//@   requires keeper.rulesWF
+// every pool is filed under its own id
+//@   requires forall p:Str :: has(pools, p) ==> get(pools, p).Id == p
+//@   invariant @IteratorAllPools #1 pos:    0 <= it_idx && it_idx <= it_n && len(l_pools) == it_idx
+//@   invariant @IteratorAllPools #1 listed: forall j:Int :: 0 <= j && j < it_idx ==> l_pools[j].Id == it_seq[j] && l_pools[j].EndHeight == get(pools, it_seq[j]).EndHeight
+//@                                             && l_pools[j].StartHeight == get(pools, it_seq[j]).StartHeight && l_pools[j].Creator == get(pools, it_seq[j]).Creator
+//@                                             && l_pools[j].TotalLptLocked == get(pools, it_seq[j]).TotalLptLocked
+//@                                             && (forall m:Int :: 0 <= m && m < len(l_pools[j].Rules) ==> has(ruleF, it_seq[j], l_pools[j].Rules[m].Reward) && l_pools[j].Rules[m] == get(ruleF, it_seq[j], l_pools[j].Rules[m].Reward))
+//@   invariant @IteratorAllFarmInfo #1 pos:    0 <= it_idx && it_idx <= it_n && len(farmInfos) == it_idx
+//@   invariant @IteratorAllFarmInfo #1 listed: forall j:Int :: 0 <= j && j < it_idx ==> farmInfos[j] == get(farmers, it_seq[j].k0, it_seq[j].k1)
+//@   invariant @IteratorAllFarmInfo #1 keep:   forall p:Str :: has(pools, p) ==> (exists m:Int :: 0 <= m && m < len(l_pools) && l_pools[m].Id == p && l_pools[m].EndHeight == get(pools, p).EndHeight
+//@                                             && l_pools[m].TotalLptLocked == get(pools, p).TotalLptLocked)
+//@   invariant @GetAllEscrowInfo #1 pos: 0 <= it_idx && it_idx <= it_n
+//@   ensures every_pool: forall p:Str :: has(pools, p) ==> (exists m:Int :: 0 <= m && m < len(gs.Pools) && gs.Pools[m].Id == p && gs.Pools[m].EndHeight == get(pools, p).EndHeight
+//@                                             && gs.Pools[m].TotalLptLocked == get(pools, p).TotalLptLocked)
+//@   ensures every_position: forall a:Str :: forall p:Str :: has(farmers, a, p) ==> (exists m:Int :: 0 <= m && m < len(gs.FarmInfos) && gs.FarmInfos[m] == get(farmers, a, p))
+//@   ensures sequence: has(poolSeq) ==> gs.Sequence == get(poolSeq)
 //@ end
